@@ -185,8 +185,12 @@ where
             match wait_mode {
                 WaitMode::Block => limiter.until_key_ready(peer_id).await,
                 WaitMode::ReturnError => {
+                    // Read the clock before the check: the limiter's decision is taken at a
+                    // later instant, so the wait measured from `now` is always positive. Reading
+                    // it afterwards reports 0 when the next cell frees up in between.
+                    let now = clock.now();
                     if let Err(e) = limiter.check_key(peer_id) {
-                        let wait_time = e.wait_time_from(clock.now());
+                        let wait_time = e.wait_time_from(now);
                         return Err(anemo::rpc::Status::new(
                             anemo::types::response::StatusCode::TooManyRequests,
                         )
